@@ -74,9 +74,35 @@ def check(repo, res, tier):
             for p in paths:
                 env = {'self.timestep_unit': unit}
                 aenv = {}       # local name -> Affine, evaluated where it is assigned (flow-sensitive)
+                lists = {}      # local name -> [Affine per component] for a list of tuples built by a comprehension
+                tuples = {}     # local name -> [Affine per component] for a name bound to one such tuple
                 feasible = True
                 mine = []
+
+                def sub(expr):
+                    """spec[1] of a known tuple -> a placeholder local carrying that component"""
+                    import copy as _copy
+
+                    class T(ast.NodeTransformer):
+                        def visit_Subscript(self, node):
+                            self.generic_visit(node)
+                            if isinstance(node.value, ast.Name) and node.value.id in tuples and isinstance(
+                                    node.slice, ast.Constant) and isinstance(node.slice.value, int) \
+                                    and 0 <= node.slice.value < len(tuples[node.value.id]):
+                                ph = '__tuple_%s_%d' % (node.value.id, node.slice.value)
+                                aenv[ph] = tuples[node.value.id][node.slice.value]
+                                return ast.copy_location(ast.Name(id=ph, ctx=ast.Load()), node)
+                            return node
+                    return T().visit(_copy.deepcopy(expr)) if tuples else expr
                 for e in p.events:
+                    if e.kind == 'for' and isinstance(e.node.iter, ast.Name) and e.node.iter.id in lists:
+                        comps = lists[e.node.iter.id]
+                        if isinstance(e.node.target, ast.Name):
+                            tuples[e.node.target.id] = comps
+                        elif isinstance(e.node.target, (ast.Tuple, ast.List)) and len(e.node.target.elts) == len(comps):
+                            for t_, c_ in zip(e.node.target.elts, comps):
+                                if isinstance(t_, ast.Name):
+                                    aenv[t_.id] = c_
                     if e.kind == 'test':
                         try:
                             v = bool(ceval(e.node, env))
@@ -94,11 +120,19 @@ def check(repo, res, tier):
                                 env[nm] = ceval(n.value, env)
                             except Unknown:
                                 env.pop(nm, None)
-                            aenv[nm] = affine(canon, unwrap(n.value), fr, dict(aenv, **num_env(env)))
+                            lists.pop(nm, None)
+                            tuples.pop(nm, None)
+                            v_ = n.value
+                            if isinstance(v_, (ast.ListComp, ast.GeneratorExp)) and len(v_.generators) == 1 and isinstance(
+                                    v_.elt, ast.Tuple):
+                                lists[nm] = [affine(canon, unwrap(x), fr, dict(aenv, **num_env(env))) for x in v_.elt.elts]
+                            elif isinstance(v_, ast.Tuple):
+                                tuples[nm] = [affine(canon, unwrap(x), fr, dict(aenv, **num_env(env))) for x in v_.elts]
+                            aenv[nm] = affine(canon, unwrap(sub(n.value)), fr, dict(aenv, **num_env(env)))
                         elif isinstance(n, ast.AugAssign) and isinstance(n.target, ast.Name):
                             env.pop(n.target.id, None)
                         for site, param, expr, key, direction in sites_in(repo, fr, n, tab):
-                            a = affine(canon, unwrap(expr), fr, dict(aenv, **num_env(env)))
+                            a = affine(canon, unwrap(sub(expr)), fr, dict(aenv, **num_env(env)))
                             mine.append(((site, param, key, direction, id(n)), (a, n, p)))
                 if not feasible:
                     continue
